@@ -181,7 +181,7 @@ pub fn explore_pairs(w: &World, member: &str, regime: Regime, max_pairs: usize, 
     }
 }
 
-fn snap(c: &Client, w: &World, pool_ids: &[nostr::EventId], wids: &[nostr::EventId]) -> StateRec {
+pub fn snap(c: &Client, w: &World, pool_ids: &[nostr::EventId], wids: &[nostr::EventId]) -> StateRec {
     let key = c.key(pool_ids, wids).to_string();
     let g = c.group_obs(&w.gid);
     StateRec { key_hash: h64(&key), obs_hash: 0, g, dedup: vec![], snap_queue: vec![], snap_stored: vec![], depth: 0, parent: None, key_json: None, auto_pending: false, send_ok: None, foreign_msgs: 0, welcome_states: vec![], welcome_dedup: vec![] }
@@ -242,4 +242,42 @@ pub fn linear_restarts(w: &World, member: &str, rep: &mut Report) {
     }
     rep.states += n as u64;
     rep.transitions += (n * (n + 1)) as u64;
+}
+
+/// C01 on one unforked SQLite client: every published event in canonical order (winning branch first, causal),
+/// repeated until nothing changes, on ONE connection. The graphs fork before every step and so never carry what a
+/// call left on the connection into the next call; this run does. The end state must be the MIP-03 reference.
+pub fn unforked_convergence(w: &World, member: &str, rep: &mut Report) {
+    let pool_ids = w.pool_ids();
+    let wids = w.welcome_ids();
+    let root_epoch = w.nodes[&vec![]].core.epoch;
+    let mut c = w.initial[member].fork();
+    let mut results: Vec<String> = Vec::new();
+    for _round in 0..(w.pool.len() + 2) {
+        let before = c.key(&pool_ids, &wids).to_string();
+        for &i in &w.settle_order {
+            let ep = c.group_obs(&w.gid).and_then(|g| g.mls.map(|m| m.epoch)).unwrap_or(0);
+            if (w.pool[i].node.len() as u64) > ep.saturating_sub(root_epoch) {
+                continue;
+            }
+            let out = step_on(w, c, Action::Deliver(i));
+            results.push(format!("{}->{}", event_class(w, member, i), out.result));
+            c = out.client;
+        }
+        if c.key(&pool_ids, &wids).to_string() == before {
+            break;
+        }
+    }
+    let rec = snap(&c, w, &pool_ids, &wids);
+    let cls = crate::props_e1::classify(w, member, &rec);
+    rep.case(&format!("unforked|{}|{}|{cls:?}", w.sc.name, member_role(w, member)));
+    rep.evaluations += 1;
+    rep.transitions += results.len() as u64;
+    if !matches!(cls, crate::props_e1::Conv::Ok | crate::props_e1::Conv::Skip) {
+        rep.finding(
+            format!("C01|unforked-sqlite-history|{cls:?}|{}", member_role(w, member)),
+            format!("member {member}: every event of scenario {} offered in canonical order on one SQLite connection until nothing changes ends {cls:?}: {}", w.sc.name, results.join(" ; ")),
+            json!({"scenario": w.sc, "backend": "Sqlite", "member": member, "results": results}),
+        );
+    }
 }
